@@ -137,7 +137,7 @@ def run(ctx):
     rng = random.Random(ctx.seed)
     spec_runs(ctx)
     K = 2
-    traces = []; meta = []
+    traces = []; meta = []; ncase = 0
     shapes = SHAPES[:ctx.pick(3, 4)]
     for si, shape in enumerate(shapes):
         for kind in ("plain", "gz"):
@@ -189,6 +189,30 @@ def run(ctx):
                 run2 = dict(cfg=dict(p=cfg["p"], mt=cfg["mt"], ip=cfg["ip"]), recs=fkeys[kept:], evals=evals, end="done", torn=0, tornk=["none"])
                 traces.append(dict(shape=dict(tr=[list(t) for t in shape["tr"]], ch=shape["ch"], fail=[list(t) for t in shape["fail"]]), runs=[run1, run2]))
                 meta.append(case)
+                # ---- a second interruption: the file the resumed run wrote (old records + new ones, in the resumed configuration's
+                #      order) is cut again and the experiment is run a third time
+                ncase += 1
+                if kind == "plain" and ncase % ctx.pick(6, 40) == 0 and len(after) > b + 2:
+                    ends2 = [i + 1 for i, c in enumerate(after) if c == 10]
+                    b2 = rng.randrange(min(b, len(after) - 1), len(after))
+                    nc2, torn2 = classify(ends2, b2)
+                    cfg3 = CFGS[rng.randrange(3)]
+                    case3 = dict(case, second_cut=b2, size2=len(after), complete2=nc2, torn2=torn2, cfg3=cfg3)
+                    ctx.case(json.dumps([si, "second", nc2, torn2, cfg3["mt"]]))
+                    open(f, "wb").write(after[:b2]); open(side, "w").close()
+                    try:
+                        got3 = explib.result_digest(resume(shape, side, f, cfg3, rng.randrange(1 << 30)))
+                        fkeys3 = [k for k, _ in explib.log_records(open(f, "rb").read().decode().splitlines())]
+                    except BaseException as e:
+                        ctx.violation("unusable:second-interruption", "re-running after a second kill (byte %d/%d of the resumed run's file) raised %s: %s" % (b2, len(after), type(e).__name__, str(e)[:150]), case3); continue
+                    dd = explib.diff_digest(ref, got3)
+                    if dd: ctx.violation("result-differs:second-interruption", "Result after two interruptions differs from the uninterrupted one: %s" % dd, case3); continue
+                    kept2 = nc2 + (1 if torn2 == 2 else 0)
+                    dup = [k for k in fkeys3 if fkeys3.count(k) > 1]
+                    if dup: ctx.violation("recorded-twice:second-interruption", "records %s appear twice in the file after two interruptions" % dup[:3], case3); continue
+                    if fkeys3[:kept2] != fkeys[:kept2]: ctx.violation("prefix-changed:second-interruption", "records complete before the second crash changed", case3); continue
+                    redone = [e for e in ([["I"] + json.loads(l) for l in open(side).read().splitlines()]) if e in fkeys[:kept2]]
+                    if redone: ctx.violation("re-evaluated:second-interruption", "triples %s were already recorded in the file and were evaluated again" % redone[:3], case3); continue
     if traces: ctx.sample(traces[len(traces) // 3], limit=1)
     rej = tracecheck.validate(ctx, "ExperimentLogTrace", "ExperimentLogTrace.cfg", traces, name="explog_trace", workers=16)
     for i, reason, pos in rej:
